@@ -152,7 +152,7 @@ def core_sites(chk):
     send = ctx.func("_output", "Destinations.send")
     loopvars = set()
     for n in iter_own_nodes(send.node):
-        if isinstance(n, ast.For) and unparse(n.iter) == "self._destinations" and isinstance(n.target, ast.Name):
+        if isinstance(n, ast.For) and "self._destinations" in unparse(n.iter) and isinstance(n.target, ast.Name):
             loopvars.add(n.target.id)
     chk.need(loopvars, "fan-out loop over self._destinations not found in Destinations.send")
     for s in site_of(send, lambda c: isinstance(c.func, ast.Name) and c.func.id in loopvars, "destination call"):
